@@ -966,8 +966,11 @@ impl Check for C13 {
         }
         handtable::check()
     }
+    /// generous: every case is a sub-millisecond compile, but the harness
+    /// also does file I/O and on a heavily loaded machine all workers were
+    /// once seen stalled together for more than 10 s
     fn case_timeout_s(&self, cfg: &Cfg) -> f64 {
-        cfg.tier.pick(10.0, 30.0)
+        cfg.tier.pick(60.0, 120.0)
     }
 }
 
